@@ -58,9 +58,10 @@ impl<'a> CertificateFetcher<'a> {
     /// - Certificate parsing fails
     pub async fn fetch_by_ski(&self, ski: &str) -> Result<CertificateInfo> {
         info!("Fetching certificate for SKI: {}", ski);
+        Self::validate_identifier(ski)?;
 
         // Use the certs endpoint with SKI as the identifier
-        let endpoint = format!("certs/{ski}");
+        let endpoint = format!("v1/certs/{ski}");
 
         // Make the request - use TCP-only since certs endpoint may not support V2
         let response = self.client.query_tcp_only(&endpoint).await?;
@@ -81,11 +82,23 @@ impl<'a> CertificateFetcher<'a> {
     /// Returns an error if the certificate cannot be fetched or parsed
     pub async fn fetch_by_hash(&self, hash: &str) -> Result<CertificateInfo> {
         info!("Fetching certificate for hash: {}", hash);
+        Self::validate_identifier(hash)?;
 
-        let endpoint = format!("ocsp/{hash}");
+        let endpoint = format!("v1/ocsp/{hash}");
         let response = self.client.query_tcp_only(&endpoint).await?;
 
         Self::parse_certificate_response(&response)
+    }
+
+    /// An identifier is a non-empty string of hex digits. It becomes part of the command
+    /// line sent to the server, so anything else (a line break in particular) is refused.
+    fn validate_identifier(id: &str) -> Result<()> {
+        if id.is_empty() || !id.bytes().all(|b| b.is_ascii_hexdigit()) {
+            return Err(ProtocolError::InvalidEndpoint(format!(
+                "Certificate identifier is not a hex string: {id:?}"
+            )));
+        }
+        Ok(())
     }
 
     /// Parse certificate from a response string
